@@ -1,11 +1,1018 @@
-(* Client_proofs.v — lemmas about the client transaction model (placeholder header, filled below) *)
-From PM.theories Require Import Base Expr Client.
+(* Client_proofs.v — lemmas about the client transaction model (theories/Client.v) instantiated with the
+   skeleton REGENERATED from pymodbus/transaction.py (Generated/GenClient.v).
+   [body_is_step] is the bridge: the interpretation of the generated loop body equals the hand-written
+   [step]; every change of the loop's branch structure in the source breaks it (and everything below). *)
+From Coq Require Import ZifyBool.
+From PM.theories Require Import Base Expr Client CorrClient.
 From PM.Generated Require Import GenClient.
 Open Scope list_scope.
 Open Scope Z_scope.
 
-Lemma next_tid_mod : forall t, 0 <= t -> next_tid code t = (t + 1) mod 65536.
+Section S.
+Variable FS : Type.
+Variable F : framer FS.
+
+Notation transactF := (transact code FS F).
+
+(* bookkeeping of _no_response_devices after _transact *)
+Definition nr_update (E : lenv) (st : lst) : lst :=
+  match l_resp st with
+  | [] => if zmem (r_unit (e_req E)) (l_noresp st) then st
+          else set_noresp st (l_noresp st ++ [r_unit (e_req E)])
+  | _ => if zmem (r_unit (e_req E)) (l_noresp st)
+         then set_noresp st (zremove1 (r_unit (e_req E)) (l_noresp st)) else st
+  end.
+
+Definition unit_match (E : lenv) (m : mbap) : bool :=
+  match mb_unit m with Some u => u =? r_unit (e_req E) | None => false end.
+Definition len_match (E : lenv) (m : mbap) : bool :=
+  match mb_len m with
+  | Some a => opt_truthy (e_exp E) && match e_exp E with Some b => a =? b | None => false end
+  | None => false end.
+
+Definition retry_tail (E : lenv) (st : lst) : lst * flow :=
+  match decode_data 7 (c_framing (e_cfg E)) (l_resp st) with
+  | Raise e => (st, FRaise e)
+  | Ok m =>
+      let st3 := set_mbap st m in
+      if unit_match E m then (st3, FBreak)
+      else if len_match E m then (st3, FBreak)
+      else (set_retries (set_bcast (set_full (set_sleep st3
+              (2 ^ (retries_eff code (e_cfg E) - l_retries st + 1))) false) false) (l_retries st - 1), FNext)
+  end.
+
+Definition step (E : lenv) (st : lst) : lst * flow :=
+  let '(w, conn, r) := transactF (c_framing (e_cfg E)) (l_w st) (l_conn st) (e_req E) (e_tid E)
+                                (e_exp E) (l_full st) (l_bcast st) in
+  match r with
+  | Raise e => (set_resp st w conn [], FRaise e)
+  | Ok bs =>
+      let st2 := nr_update E (set_resp st w conn bs) in
+      match bs with
+      | [] => if c_roe (e_cfg E) then retry_tail E st2 else (st2, FBreak)
+      | _ => if c_roi (e_cfg E) then retry_tail E st2 else (st2, FBreak)
+      end
+  end.
+
+Lemma body_is_step : forall E st, run_list code FS F E (g_loop_body code) st = step E st.
 Proof.
-  intros t Ht. unfold next_tid. cbn [code g_next_tid eval env_of eval_bin String.eqb].
-  cbn. change 65535 with (Z.ones 16). rewrite Z.land_ones by lia. reflexivity.
+  intros E st. unfold step.
+  cbn [g_loop_body code run_list run_stmt].
+  destruct (transactF _ _ _ _ _ _ _ _) as [[w conn] r].
+  destruct r as [bs | e]; [| reflexivity].
+  unfold nr_update, retry_tail, unit_match, len_match.
+  destruct bs as [|b bs']; cbn -[Z.pow zmem zremove1 decode_data];
+  destruct (zmem (r_unit (e_req E)) (l_noresp st)) eqn:Hm; cbn -[Z.pow zmem zremove1 decode_data];
+  destruct (c_roe (e_cfg E)) eqn:Hroe; destruct (c_roi (e_cfg E)) eqn:Hroi; cbn -[Z.pow zmem zremove1 decode_data]; try reflexivity.
+  all: destruct (decode_data 7 (c_framing (e_cfg E)) _) as [m|e]; cbn -[Z.pow zmem zremove1 decode_data]; try reflexivity.
+  all: destruct (mb_unit m) as [u|]; cbn -[Z.pow]; [destruct (u =? r_unit (e_req E)); cbn -[Z.pow]; try reflexivity|].
+  all: destruct (mb_len m) as [a|]; cbn -[Z.pow]; try reflexivity.
+  all: destruct (e_exp E) as [x|]; cbn -[Z.pow]; try reflexivity.
+  all: destruct (negb (x =? 0)); cbn -[Z.pow]; try reflexivity.
+  all: destruct (a =? x); cbn -[Z.pow]; try reflexivity.
 Qed.
+
+(* ---------------- counting the frames written *)
+Definition is_send (c : call) : bool := match c with CSend _ => true | _ => false end.
+Definition sends_of (cs : list call) : Z := zlen (filter is_send cs).
+Definition wsends (w : world) : Z := sends_of (w_calls w).
+
+Lemma sends_of_rev cs : sends_of (rev cs) = sends_of cs.
+Proof.
+  unfold sends_of, zlen. induction cs as [|c t IH]; [reflexivity|].
+  cbn [rev]. rewrite filter_app, app_length. cbn [filter].
+  destruct (is_send c); cbn [length]; lia.
+Qed.
+
+Lemma sends_of_cons c cs : sends_of (c :: cs) = (if is_send c then 1 else 0) + sends_of cs.
+Proof. unfold sends_of, zlen. cbn [filter]. destruct (is_send c); cbn [length]; lia. Qed.
+
+Lemma pop_sends w c e w' : pop w c = (e, w') -> wsends w' = (if is_send c then 1 else 0) + wsends w.
+Proof.
+  unfold pop, wsends. destruct (w_script w); intro H; inversion H; subst; cbn [w_calls]; apply sends_of_cons.
+Qed.
+
+Lemma t_connect_sends w conn w' b : t_connect w conn = (w', b) -> wsends w' = wsends w.
+Proof.
+  unfold t_connect. destruct conn; [intro H; inversion H; reflexivity|].
+  destruct (pop w CConnect) as [e w1] eqn:Hp. apply pop_sends in Hp. cbn [is_send] in Hp.
+  destruct e; intro H; inversion H; subst; lia.
+Qed.
+
+Lemma t_send_sends w p w' r : t_send w p = (w', r) -> wsends w' = 1 + wsends w.
+Proof.
+  unfold t_send. destruct (pop w (CSend p)) as [e w1] eqn:Hp. apply pop_sends in Hp. cbn [is_send] in Hp.
+  destruct e; intro H; inversion H; subst; lia.
+Qed.
+
+Lemma t_recv_sends w sz w' r : t_recv w sz = (w', r) -> wsends w' = wsends w.
+Proof.
+  unfold t_recv. destruct (pop w (CRecv sz)) as [e w1] eqn:Hp. apply pop_sends in Hp. cbn [is_send] in Hp.
+  destruct e; intro H; inversion H; subst; lia.
+Qed.
+
+Lemma recv_model_sends fr w exp full w' r :
+  recv_model code fr w exp full = (w', r) -> wsends w' = wsends w.
+Proof.
+  unfold recv_model. destruct full; [apply t_recv_sends|].
+  destruct (t_recv w (Some (g_min_size code fr))) as [w1 r1] eqn:H1. apply t_recv_sends in H1.
+  destruct r1 as [rm|e]; [|intro H; inversion H; subst; lia].
+  destruct (negb _); [intro H; inversion H; subst; lia|].
+  assert (G : forall x w2 r2, (let '(w2, r2) := t_recv w1 x in
+              match r2 with Raise e => (w2, Raise e) | Ok rest => (w2, Ok (rm ++ rest)) end) = (w2, r2)
+              -> wsends w2 = wsends w).
+  { intros x w2 r2. destruct (t_recv w1 x) as [w3 r3] eqn:H3. apply t_recv_sends in H3.
+    destruct r3; intro H; inversion H; subst; lia. }
+  destruct rm as [|b0 rm']; [apply G|].
+  destruct (func_code fr (b0 :: rm')) as [fc|e]; [|intro H; inversion H; subst; lia].
+  destruct (fc <? g_err_threshold code); apply G.
+Qed.
+
+Lemma transact_sends fr w conn rq tid exp full bc w' conn' r :
+  transactF fr w conn rq tid exp full bc = (w', conn', r) -> wsends w <= wsends w' <= wsends w + 1.
+Proof.
+  unfold transact. destruct (t_connect w conn) as [w1 c1] eqn:Hc. apply t_connect_sends in Hc.
+  destruct (negb c1); [intro H; inversion H; subst; lia|].
+  destruct (t_send w1 (f_build F rq tid)) as [w2 rs] eqn:Hs. apply t_send_sends in Hs.
+  destruct rs as [u|e].
+  - destruct bc; [intro H; inversion H; subst; lia|].
+    destruct (recv_model code fr w2 exp full) as [w3 rr] eqn:Hr. apply recv_model_sends in Hr.
+    destruct rr as [bs|e]; [|destruct (caught code e)]; intro H; inversion H; subst; lia.
+  - destruct (caught code e); intro H; inversion H; subst; lia.
+Qed.
+
+Lemma guard_gt r : guard code r = (r >? 0).
+Proof. unfold guard. cbn. destruct (r >? 0); reflexivity. Qed.
+
+Lemma nr_update_same E st :
+  l_w (nr_update E st) = l_w st /\ l_retries (nr_update E st) = l_retries st /\
+  l_conn (nr_update E st) = l_conn st /\ l_resp (nr_update E st) = l_resp st /\
+  l_full (nr_update E st) = l_full st /\ l_bcast (nr_update E st) = l_bcast st /\
+  l_sleeps (nr_update E st) = l_sleeps st.
+Proof.
+  unfold nr_update. destruct (l_resp st) eqn:Hq; destruct (zmem _ _); cbn; rewrite ?Hq; repeat split; reflexivity.
+Qed.
+
+Lemma retry_tail_props E st st' f : retry_tail E st = (st', f) ->
+  l_w st' = l_w st /\ l_conn st' = l_conn st /\ l_resp st' = l_resp st /\ l_noresp st' = l_noresp st /\
+  (f = FNext -> l_retries st' = l_retries st - 1 /\ l_full st' = false /\ l_bcast st' = false) /\
+  (f <> FNext -> l_retries st' = l_retries st /\ l_sleeps st' = l_sleeps st).
+Proof.
+  unfold retry_tail. destruct (decode_data _ _ _) as [m|e].
+  - destruct (unit_match E m); [|destruct (len_match E m)]; intro H; inversion H; subst; cbn;
+      repeat split; try reflexivity;
+      try (intro X; try discriminate X; try (exfalso; apply X; reflexivity); cbn; repeat split; reflexivity).
+    all: try congruence.
+  - intro H; inversion H; subst; repeat split; try reflexivity;
+      try (intro X; try discriminate X; cbn; repeat split; reflexivity).
+    all: try congruence.
+Qed.
+
+Lemma step_props E st st' f : step E st = (st', f) ->
+  wsends (l_w st) <= wsends (l_w st') <= wsends (l_w st) + 1 /\
+  (f = FNext -> l_retries st' = l_retries st - 1) /\ (f <> FNext -> l_retries st' = l_retries st).
+Proof.
+  unfold step. destruct (transactF _ _ _ _ _ _ _ _) as [[w conn] r] eqn:Ht. apply transact_sends in Ht.
+  destruct r as [bs|e].
+  - pose proof (nr_update_same E (set_resp st w conn bs)) as (Hw & Hr & _). cbn in Hw, Hr.
+    assert (G : forall st' f, retry_tail E (nr_update E (set_resp st w conn bs)) = (st', f) ->
+              wsends (l_w st) <= wsends (l_w st') <= wsends (l_w st) + 1 /\
+              (f = FNext -> l_retries st' = l_retries st - 1) /\ (f <> FNext -> l_retries st' = l_retries st)).
+    { intros s2 f2 H2. apply retry_tail_props in H2. destruct H2 as (A & _ & _ & _ & B & C).
+      rewrite A, Hw. split; [lia|]. split; intro X; [destruct (B X) as (B1 & _)| destruct (C X) as (C1 & _)]; lia. }
+    destruct bs; [destruct (c_roe (e_cfg E))|destruct (c_roi (e_cfg E))]; try apply G;
+      intro H; inversion H; subst; rewrite Hw, Hr; (split; [lia|split; [discriminate|reflexivity]]).
+  - intro H; inversion H; subst; cbn. split; [lia|split; [discriminate|reflexivity]].
+Qed.
+
+Lemma loop_sends E : forall fuel st st' fin, loop code FS F E fuel st = (st', fin) ->
+  wsends (l_w st) <= wsends (l_w st') <= wsends (l_w st) + Z.max 0 (l_retries st).
+Proof.
+  induction fuel as [|k IH]; intros st st' fin H; cbn [loop] in H.
+  - inversion H; subst; lia.
+  - rewrite guard_gt in H. destruct (l_retries st >? 0) eqn:Hg; [|inversion H; subst; lia].
+    rewrite body_is_step in H. destruct (step E st) as [st1 f] eqn:Hs. apply step_props in Hs.
+    destruct Hs as (A & B & C). destruct f.
+    + apply IH in H. specialize (B eq_refl). lia.
+    + inversion H; subst; lia.
+    + inversion H; subst; lia.
+Qed.
+
+Lemma loop_fuel E : forall k st, l_retries st < Z.of_nat (S k) -> snd (loop code FS F E (S k) st) <> LOutOfFuel.
+Proof.
+  induction k as [|k IH]; intros st Hr.
+  - cbn [loop]. rewrite guard_gt. destruct (l_retries st >? 0) eqn:Hg; [lia|]. cbn. discriminate.
+  - remember (S k) as n. cbn [loop]. rewrite guard_gt. destruct (l_retries st >? 0) eqn:Hg; [|cbn; discriminate].
+    rewrite body_is_step. destruct (step E st) as [st1 f] eqn:Hs. apply step_props in Hs.
+    destruct Hs as (A & B & C). destruct f; [|cbn; discriminate|cbn; discriminate].
+    subst n. apply IH. specialize (B eq_refl). lia.
+Qed.
+
+Definition retries_given (c : cfg) : Z := match c_retries_kw c with Some r => r | None => 3 end.
+
+Lemma retries_eff_given c : 0 <= retries_given c -> retries_eff code c = retries_given c.
+Proof.
+  unfold retries_eff, retries_given, py_or. cbn [code g_retries_default g_retries_or].
+  destruct (c_retries_kw c) as [r|]; [destruct (r =? 0) eqn:Hz; lia|reflexivity].
+Qed.
+
+Ltac break_exec H :=
+  repeat match type of H with
+         | context [let '(_, _) := ?x in _] => destruct x eqn:?
+         | context [match ?x with _ => _ end] => destruct x eqn:?
+         | context [if ?x then _ else _] => destruct x eqn:?
+         end.
+
+Theorem execute_sends c st rq sc st' o : 0 <= retries_given c ->
+  execute code FS F c st rq sc = (st', o) -> sends_of (o_calls o) <= 1 + retries_given c.
+Proof.
+  intros Hr H. unfold execute in H. rewrite (retries_eff_given c Hr) in H.
+  destruct (t_connect _ (s_conn st)) as [w1 conn1] eqn:Hc. apply t_connect_sends in Hc.
+  unfold wsends in Hc. cbn [w_calls] in Hc. change (sends_of []) with 0 in Hc.
+  destruct (negb conn1).
+  { inversion H; subst. cbn [o_calls mk_out]. rewrite sends_of_rev. unfold wsends in Hc. lia. }
+  destruct (c_bcast c && (r_unit rq =? 0)).
+  { destruct (transactF _ _ _ _ _ _ _ _) as [[w2 conn2] r] eqn:Ht. apply transact_sends in Ht.
+    inversion H; subst. cbn [o_calls mk_out]. rewrite sends_of_rev. unfold wsends in *. lia. }
+  destruct (loop _ _ _ _ _ _) as [l1 fin] eqn:Hl. apply loop_sends in Hl. cbn [l_w l_retries] in Hl.
+  assert (G : wsends (l_w l1) <= 1 + retries_given c).
+  { cbn [g_retries_bump code] in Hl. unfold wsends in *. lia. }
+  destruct fin.
+  - destruct (f_process F _ _ _) as [[fs2 ms] ex].
+    destruct ex as [e|].
+    + destruct e; inversion H; subst; cbn [o_calls mk_out]; rewrite sends_of_rev; exact G.
+    + destruct (d_pop _ _) as [r tx2]. destruct r as [m|].
+      * inversion H; subst; cbn [o_calls mk_out]; rewrite sends_of_rev; exact G.
+      * destruct tx2.
+        -- inversion H; subst; cbn [o_calls mk_out]; rewrite sends_of_rev; exact G.
+        -- destruct (d_pop _ _) as [r' tx3].
+           inversion H; subst; cbn [o_calls mk_out]; rewrite sends_of_rev; exact G.
+  - inversion H; subst; cbn [o_calls mk_out]; rewrite sends_of_rev; exact G.
+  - inversion H; subst; cbn [o_calls mk_out]; rewrite sends_of_rev; exact G.
+Qed.
+
+Theorem execute_not_stuck c st rq sc : o_res (snd (execute code FS F c st rq sc)) <> RStuck.
+Proof.
+  unfold execute.
+  destruct (t_connect _ (s_conn st)) as [w1 conn1].
+  destruct (negb conn1); [cbn; discriminate|].
+  destruct (c_bcast c && (r_unit rq =? 0)).
+  { destruct (transactF _ _ _ _ _ _ _ _) as [[w2 conn2] r]. destruct r; cbn; discriminate. }
+  match goal with |- context [loop code FS F ?E (S ?k) ?l0] =>
+    pose proof (loop_fuel E k l0) as Hf; destruct (loop code FS F E (S k) l0) as [l1 fin] end.
+  destruct fin.
+  - destruct (f_process F _ _ _) as [[fs2 ms] ex].
+    destruct ex as [e|]; [destruct e; cbn; discriminate|].
+    destruct (d_pop _ _) as [r tx2]. destruct r; [cbn; discriminate|].
+    destruct tx2; [cbn; discriminate|]. destruct (d_pop _ _) as [r' tx3]. destruct r'; cbn; discriminate.
+  - cbn; discriminate.
+  - exfalso. apply Hf; [|reflexivity]. cbn [l_retries]. lia.
+Qed.
+
+(* ---------------- which exceptions can escape *)
+Lemma py_int16_raise bs e : py_int16 bs = Raise e -> e = ValueError.
+Proof.
+  unfold py_int16. destruct bs as [|a [|b [|c t]]]; try (intro H; inversion H; reflexivity).
+  - destruct (hexval a); intro H; inversion H; reflexivity.
+  - destruct (hexval a), (hexval b); try discriminate;
+      repeat match goal with |- context [if ?x then _ else _] => destruct x end;
+      intro H; inversion H; reflexivity.
+Qed.
+
+Lemma decode_data_raise hs fr d e : decode_data hs fr d = Raise e -> fr = FAscii /\ e = ValueError.
+Proof.
+  unfold decode_data. destruct fr; try (destruct (_ >? _); discriminate).
+  destruct (zlen d >? 1); [|discriminate].
+  destruct (py_int16 (firstn 2 (skipn 1 d))) eqn:H1; cbn [bind].
+  - destruct (py_int16 (firstn 2 (skipn 3 d))) eqn:H2; cbn [bind]; [discriminate|].
+    intro H; inversion H; subst. split; [reflexivity|]. eapply py_int16_raise; eassumption.
+  - intro H; inversion H; subst. split; [reflexivity|]. eapply py_int16_raise; eassumption.
+Qed.
+
+Lemma t_recv_raise w sz w' e : t_recv w sz = (w', Raise e) -> e = OtherExc.
+Proof. unfold t_recv. destruct (pop _ _) as [ev w1]. destruct ev; intro H; inversion H; reflexivity. Qed.
+
+Lemma recv_model_raise fr w exp full w' e : recv_model code fr w exp full = (w', Raise e) ->
+  caught code e = true \/ (fr = FAscii /\ e = ValueError).
+Proof.
+  unfold recv_model. destruct full.
+  { intro H. apply t_recv_raise in H. subst. left. reflexivity. }
+  destruct (t_recv w (Some (g_min_size code fr))) as [w1 r1] eqn:H1.
+  destruct r1 as [rm|e1]; [|intro H; inversion H; subst; apply t_recv_raise in H1; subst; left; reflexivity].
+  destruct (negb _); [intro H; inversion H; subst; left; reflexivity|].
+  assert (G : forall x w2, (let '(w2, r2) := t_recv w1 x in
+              match r2 with Raise e => (w2, Raise e) | Ok rest => (w2, Ok (rm ++ rest)) end) = (w2, Raise e)
+              -> caught code e = true \/ (fr = FAscii /\ e = ValueError)).
+  { intros x w2. destruct (t_recv w1 x) as [w3 r3] eqn:H3.
+    destruct r3; intro H; inversion H; subst. apply t_recv_raise in H3. subst. left. reflexivity. }
+  destruct rm as [|b0 rm']; [apply G|].
+  destruct (func_code fr (b0 :: rm')) as [fc|e2] eqn:Hf.
+  - destruct (fc <? g_err_threshold code); apply G.
+  - intro H; inversion H; subst. right. unfold func_code in Hf.
+    destruct fr; try discriminate. split; [reflexivity|]. eapply py_int16_raise; eassumption.
+Qed.
+
+Lemma transact_raise fr w conn rq tid exp full bc w' conn' e :
+  transactF fr w conn rq tid exp full bc = (w', conn', Raise e) ->
+  (e = ConnectionExc /\ conn' = false) \/ (fr = FAscii /\ e = ValueError).
+Proof.
+  unfold transact. destruct (t_connect w conn) as [w1 c1].
+  destruct c1; cbn [negb]; [|intro H; inversion H; subst; left; split; reflexivity].
+  destruct (t_send w1 (f_build F rq tid)) as [w2 rs] eqn:Hs.
+  destruct rs as [u|e1].
+  - destruct bc; [discriminate|].
+    destruct (recv_model code fr w2 exp full) as [w3 rr] eqn:Hr.
+    destruct rr as [bs|e2]; [discriminate|].
+    apply recv_model_raise in Hr. destruct (caught code e2) eqn:Hc; [discriminate|].
+    intro H; inversion H; subst. destruct Hr as [Hr|Hr]; [congruence|right; exact Hr].
+  - unfold t_send in Hs. destruct (pop _ _) as [ev w3]. destruct ev; inversion Hs; subst; cbn; discriminate.
+Qed.
+
+Lemma step_raise E st st' e : step E st = (st', FRaise e) ->
+  (e = ConnectionExc /\ l_conn st' = false) \/ (c_framing (e_cfg E) = FAscii /\ e = ValueError).
+Proof.
+  unfold step. destruct (transactF _ _ _ _ _ _ _ _) as [[w conn] r] eqn:Ht.
+  destruct r as [bs|e1].
+  - assert (G : forall s, retry_tail E s = (st', FRaise e) -> c_framing (e_cfg E) = FAscii /\ e = ValueError).
+    { intro s. unfold retry_tail. destruct (decode_data _ _ _) as [m|e2] eqn:Hd.
+      - destruct (unit_match E m); [|destruct (len_match E m)]; discriminate.
+      - intro H; inversion H; subst. eapply decode_data_raise; eassumption. }
+    destruct bs; [destruct (c_roe (e_cfg E))|destruct (c_roi (e_cfg E))]; try discriminate;
+      intro H; right; eapply G; eassumption.
+  - intro H; inversion H; subst. apply transact_raise in Ht. cbn [l_conn set_resp]. exact Ht.
+Qed.
+
+Lemma loop_raise E : forall fuel st st' e, loop code FS F E fuel st = (st', LRaised e) ->
+  (e = ConnectionExc /\ l_conn st' = false) \/ (c_framing (e_cfg E) = FAscii /\ e = ValueError).
+Proof.
+  induction fuel as [|k IH]; intros st st' e H; cbn [loop] in H; [discriminate|].
+  destruct (guard code (l_retries st)); [|discriminate].
+  rewrite body_is_step in H. destruct (step E st) as [st1 f] eqn:Hs. destruct f.
+  - eapply IH; eassumption.
+  - discriminate.
+  - inversion H; subst. eapply step_raise; eassumption.
+Qed.
+
+(* ---------------- the transaction table *)
+Lemma last_cons {A} : forall (l : list A) (a d : A), last (a :: l) d = last l a.
+Proof.
+  induction l as [|b l IH]; intros a d; [reflexivity|].
+  change (last (a :: b :: l) d) with (last (b :: l) d). rewrite (IH b d), (IH b a). reflexivity.
+Qed.
+
+Lemma add_all_one key : forall ms m0, add_all [(key, m0)] key ms = [(key, last ms m0)].
+Proof.
+  unfold add_all. induction ms as [|a ms IH]; intro m0; [reflexivity|].
+  cbn [fold_left d_set]. rewrite Z.eqb_refl. rewrite IH. rewrite last_cons. reflexivity.
+Qed.
+
+Lemma add_all_nil key ms : add_all [] key ms = match ms with [] => [] | a :: t => [(key, last t a)] end.
+Proof. destruct ms as [|a t]; [reflexivity|]. unfold add_all. cbn [fold_left d_set]. apply add_all_one. Qed.
+
+Lemma last_in {A} : forall (l : list A) (d : A), In (last l d) (d :: l).
+Proof.
+  induction l as [|a l IH]; intro d; [left; reflexivity|].
+  rewrite last_cons. right. apply IH.
+Qed.
+
+Definition proc_clean : Prop :=
+  forall fs d u fs' ms e, f_process F fs d u = (fs', ms, Some e) -> ms = [].
+Definition framer_raises_io : Prop :=
+  forall fs d u fs' ms e, f_process F fs d u = (fs', ms, Some e) -> e = ModbusIOExc.
+
+Definition tid_ok (t : Z) : Prop := 0 <= t < 65536.
+
+Lemma next_tid_mod t : 0 <= t -> next_tid code t = (t + 1) mod 65536.
+Proof.
+  intro Ht. unfold next_tid. cbn. change 65535 with (Z.ones 16). rewrite Z.land_ones by lia. reflexivity.
+Qed.
+
+(* what one call of execute does, as a relation between the states and the outcome: the result is
+   a reply delivered by processIncomingPacket on the (reset) framer from the bytes the last
+   _transact returned, or an error object, or ...; the table is empty again afterwards *)
+Theorem execute_cases c st rq sc st' o :
+  s_tx st = [] -> execute code FS F c st rq sc = (st', o) ->
+  (s_tid st' = s_tid st \/ s_tid st' = next_tid code (s_tid st)) /\
+  match o_res o with
+  | RReply m => exists fs resp fs' ms,
+        (fs = s_fs st \/ fs = f_reset F (s_fs st)) /\ (f_nonempty F (s_fs st) = true -> fs = f_reset F (s_fs st)) /\
+        f_process F fs resp (r_unit rq) = (fs', ms, None) /\ In m ms /\ s_tx st' = []
+  | RErr (Some fc) => fc = r_fc rq /\ s_tx st' = []
+  | RErr None => exists fs resp fs' ms, f_process F fs resp (r_unit rq) = (fs', ms, Some ModbusIOExc) /\
+                   (ms = [] -> s_tx st' = [])
+  | RBroadcast => c_bcast c = true /\ r_unit rq = 0 /\ s_tx st' = []
+  | RNone => False
+  | RStuck => False
+  | RRaise e =>
+      (e = ConnectionExc /\ s_conn st' = false /\ s_tx st' = []) \/
+      (c_framing c = FAscii /\ e = ValueError /\ s_tx st' = []) \/
+      (exists fs resp fs' ms, f_process F fs resp (r_unit rq) = (fs', ms, Some e) /\ e <> ModbusIOExc /\
+                              (ms = [] -> s_tx st' = []))
+  end.
+Proof.
+  intros Htx H. pose proof (execute_not_stuck c st rq sc) as Hns. rewrite H in Hns. cbn [snd] in Hns.
+  unfold execute in H. rewrite Htx in H.
+  destruct (t_connect _ (s_conn st)) as [w1 conn1] eqn:Hc.
+  destruct conn1; cbn [negb] in H.
+  2:{ inversion H; subst. cbn. split; [left; reflexivity|]. left. repeat split; reflexivity. }
+  destruct (c_bcast c && (r_unit rq =? 0)) eqn:Hb.
+  { destruct (transactF _ _ _ _ _ _ _ _) as [[w2 conn2] r] eqn:Ht.
+    apply andb_prop in Hb. destruct Hb as [Hb1 Hb2]. apply Z.eqb_eq in Hb2.
+    destruct r as [bs|e]; inversion H; subst; cbn; (split; [right; reflexivity|]).
+    - repeat split; assumption.
+    - apply transact_raise in Ht. destruct Ht as [[-> ->]|[Ha ->]]; [left|right; left]; repeat split; try reflexivity; assumption. }
+  destruct (loop _ _ _ _ _ _) as [l1 fin] eqn:Hl.
+  destruct fin.
+  - destruct (f_process F _ _ _) as [[fs2 ms] ex] eqn:Hp.
+    assert (Hfs : forall fs, fs = (if f_nonempty F (s_fs st) then f_reset F (s_fs st) else s_fs st) ->
+               (fs = s_fs st \/ fs = f_reset F (s_fs st)) /\ (f_nonempty F (s_fs st) = true -> fs = f_reset F (s_fs st))).
+    { intros fs ->. destruct (f_nonempty F (s_fs st)); split; auto; discriminate. }
+    rewrite add_all_nil in H.
+    destruct ex as [e|].
+    + destruct e; inversion H; subst; cbn; (split; [right; reflexivity|]);
+        try (right; right; do 4 eexists; split; [exact Hp|split; [discriminate|intros ->; reflexivity]]).
+      do 4 eexists; split; [exact Hp|intros ->; reflexivity].
+    + destruct ms as [|a t].
+      * cbn [d_pop] in H. inversion H; subst; cbn. split; [right; reflexivity|]. split; reflexivity.
+      * cbn [d_pop] in H. rewrite Z.eqb_refl in H. inversion H; subst; cbn. split; [right; reflexivity|].
+        do 4 eexists. destruct (Hfs _ eq_refl) as [A B].
+        split; [exact A|]. split; [exact B|]. split; [exact Hp|]. split; [apply last_in|reflexivity].
+  - inversion H; subst; cbn. split; [right; reflexivity|].
+    apply loop_raise in Hl. cbn [e_cfg] in Hl.
+    destruct Hl as [[-> Hd]|[Ha ->]]; [left|right; left]; repeat split; try reflexivity; assumption.
+  - inversion H; subst. cbn in Hns. congruence.
+Qed.
+
+(* ---------------- healthy and empty attempts *)
+Definition serves (fr : framing) (exp : option Z) (full : bool) (reply : bytes) (sc : list tev) : Prop :=
+  forall w rest, w_script w = sc ++ rest ->
+    exists w', recv_model code fr w exp full = (w', Ok reply) /\ w_script w' = rest.
+
+Definition attempt (conn : bool) (sc : list tev) : list tev := (if conn then [] else [Nothing]) ++ Nothing :: sc.
+
+Lemma pop_script w c (e : tev) (t : list tev) : w_script w = e :: t -> exists w', pop w c = (e, w') /\ w_script w' = t.
+Proof. intro H. unfold pop. rewrite H. eexists; split; reflexivity. Qed.
+
+Lemma connect_script w (conn : bool) (rest : list tev) :
+  w_script w = (if conn then [] else [Nothing]) ++ rest ->
+  exists w', t_connect w conn = (w', true) /\ w_script w' = rest.
+Proof.
+  unfold t_connect. destruct conn; cbn [app]; intro H.
+  - exists w. split; [reflexivity|exact H].
+  - destruct (pop_script w CConnect _ _ H) as (w' & Hp & Hs). rewrite Hp. exists w'. split; [reflexivity|exact Hs].
+Qed.
+
+Lemma transact_healthy fr (conn : bool) rq tid exp full reply sc w (rest : list tev) :
+  serves fr exp full reply sc -> w_script w = attempt conn sc ++ rest ->
+  exists w', transactF fr w conn rq tid exp full false = (w', true, Ok reply) /\ w_script w' = rest.
+Proof.
+  intros Hs Hw. unfold attempt in Hw. rewrite <- app_assoc in Hw.
+  destruct (connect_script w conn _ Hw) as (w1 & Hc & H1).
+  unfold transact. rewrite Hc. cbn [negb].
+  cbn [app] in H1. destruct (pop_script w1 (CSend (f_build F rq tid)) _ _ H1) as (w2 & Hp & H2).
+  unfold t_send. rewrite Hp.
+  destruct (Hs w2 rest H2) as (w3 & Hr & H3). rewrite Hr. exists w3. split; [reflexivity|exact H3].
+Qed.
+
+Lemma min_size_pos fr : 0 < g_min_size code fr.
+Proof. destruct fr; cbn; lia. Qed.
+
+Lemma transact_empty fr (conn : bool) rq tid exp full w (rest : list tev) :
+  w_script w = (if conn then [] else [Nothing]) ++ [Nothing; Nothing] ++ rest ->
+  exists w', transactF fr w conn rq tid exp full false = (w', full, Ok []) /\ w_script w' = rest.
+Proof.
+  intro Hw. destruct (connect_script w conn _ Hw) as (w1 & Hc & H1).
+  unfold transact. rewrite Hc. cbn [negb]. cbn [app] in H1.
+  destruct (pop_script w1 (CSend (f_build F rq tid)) _ _ H1) as (w2 & Hp & H2).
+  unfold t_send. rewrite Hp. unfold recv_model. destruct full.
+  - destruct (pop_script w2 (CRecv exp) _ _ H2) as (w3 & Hp3 & H3).
+    unfold t_recv. rewrite Hp3. exists w3. split; [reflexivity|exact H3].
+  - destruct (pop_script w2 (CRecv (Some (g_min_size code fr))) _ _ H2) as (w3 & Hp3 & H3).
+    unfold t_recv. rewrite Hp3. pose proof (min_size_pos fr) as Hm.
+    replace (negb (zlen (@nil N) =? g_min_size code fr)) with true
+      by (symmetry; apply negb_true_iff; apply Z.eqb_neq; unfold zlen; cbn [length Z.of_nat]; lia).
+    cbn. exists w3. split; [reflexivity|exact H3].
+Qed.
+
+Lemma decode_empty fr : decode_data 7 fr [] = Ok mbap0.
+Proof. destruct fr; reflexivity. Qed.
+
+(* one empty attempt with retry_on_empty: the loop goes round *)
+Lemma step_empty E st rest :
+  c_roe (e_cfg E) = true -> l_bcast st = false ->
+  w_script (l_w st) = (if l_conn st then [] else [Nothing]) ++ [Nothing; Nothing] ++ rest ->
+  exists st', step E st = (st', FNext) /\ w_script (l_w st') = rest /\ l_conn st' = l_full st /\
+              l_full st' = false /\ l_bcast st' = false /\ l_retries st' = l_retries st - 1.
+Proof.
+  intros Hroe Hb Hw. unfold step. rewrite Hb.
+  destruct (transact_empty (c_framing (e_cfg E)) (l_conn st) (e_req E) (e_tid E) (e_exp E) (l_full st) (l_w st) rest Hw)
+    as (w' & Ht & Hs).
+  rewrite Ht. rewrite Hroe.
+  pose proof (nr_update_same E (set_resp st w' (l_full st) [])) as (A & B & Cc & D & _).
+  cbn [set_resp l_w l_retries l_conn l_resp] in A, B, Cc, D.
+  unfold retry_tail. rewrite D. rewrite decode_empty. cbn [unit_match len_match mbap0 mb_unit mb_len].
+  eexists. split; [reflexivity|].
+  cbn [l_w l_conn l_full l_bcast l_retries set_retries set_bcast set_full set_sleep set_mbap].
+  rewrite A, B, Cc. repeat split; try reflexivity; assumption.
+Qed.
+
+(* a healthy attempt ends the loop with the reply *)
+Lemma step_healthy E st reply sc rest :
+  l_bcast st = false -> reply <> [] ->
+  serves (c_framing (e_cfg E)) (e_exp E) (l_full st) reply sc ->
+  (c_roi (e_cfg E) = true ->
+     exists m, decode_data 7 (c_framing (e_cfg E)) reply = Ok m /\ mb_unit m = Some (r_unit (e_req E))) ->
+  w_script (l_w st) = attempt (l_conn st) sc ++ rest ->
+  exists st', step E st = (st', FBreak) /\ l_resp st' = reply /\ w_script (l_w st') = rest /\ l_conn st' = true.
+Proof.
+  intros Hb Hne Hs Hu Hw. unfold step. rewrite Hb.
+  destruct (transact_healthy _ (l_conn st) (e_req E) (e_tid E) _ _ _ _ _ _ Hs Hw) as (w' & Ht & Hsc).
+  rewrite Ht.
+  pose proof (nr_update_same E (set_resp st w' true reply)) as (A & B & Cc & D & _).
+  cbn [set_resp l_w l_retries l_conn l_resp] in A, B, Cc, D.
+  destruct reply as [|b0 r0]; [congruence|].
+  destruct (c_roi (e_cfg E)) eqn:Hroi.
+  - destruct (Hu eq_refl) as (m & Hd & Hm). unfold retry_tail. rewrite D, Hd.
+    unfold unit_match. rewrite Hm, Z.eqb_refl.
+    eexists. split; [reflexivity|]. cbn [l_w l_conn l_resp set_mbap].
+    rewrite A, Cc, D. repeat split; try reflexivity; assumption.
+  - eexists. split; [reflexivity|]. rewrite A, Cc, D. repeat split; try reflexivity; assumption.
+Qed.
+
+Fixpoint empties (j : nat) (conn full : bool) : list tev :=
+  match j with
+  | O => []
+  | S k => (if conn then [] else [Nothing]) ++ [Nothing; Nothing] ++ empties k full false
+  end.
+Fixpoint after_empties (j : nat) (conn full : bool) : bool * bool :=
+  match j with O => (conn, full) | S k => after_empties k full false end.
+
+Lemma loop_empties_then_healthy E reply sc rest :
+  reply <> [] ->
+  (c_roi (e_cfg E) = true ->
+     exists m, decode_data 7 (c_framing (e_cfg E)) reply = Ok m /\ mb_unit m = Some (r_unit (e_req E))) ->
+  forall j fuel st,
+    (j = O \/ c_roe (e_cfg E) = true) ->
+    l_bcast st = false -> Z.of_nat j < l_retries st -> (j < fuel)%nat ->
+    serves (c_framing (e_cfg E)) (e_exp E) (snd (after_empties j (l_conn st) (l_full st))) reply sc ->
+    w_script (l_w st) = empties j (l_conn st) (l_full st)
+                        ++ attempt (fst (after_empties j (l_conn st) (l_full st))) sc ++ rest ->
+    exists st', loop code FS F E fuel st = (st', LDone) /\ l_resp st' = reply /\ w_script (l_w st') = rest.
+Proof.
+  intros Hne Hu. induction j as [|j IH]; intros fuel st Hroe Hb Hr Hf Hs Hw.
+  - destruct fuel as [|k]; [lia|]. cbn [loop]. rewrite guard_gt.
+    replace (l_retries st >? 0) with true by (symmetry; apply Z.gtb_lt; lia).
+    rewrite body_is_step. cbn [empties after_empties fst snd app] in *.
+    destruct (step_healthy E st reply sc rest Hb Hne Hs Hu Hw) as (st' & Hst & A & B & _).
+    rewrite Hst. exists st'. repeat split; assumption.
+  - destruct fuel as [|k]; [lia|]. cbn [loop]. rewrite guard_gt.
+    replace (l_retries st >? 0) with true by (symmetry; apply Z.gtb_lt; lia).
+    rewrite body_is_step. cbn [empties after_empties] in *.
+    rewrite <- !app_assoc in Hw.
+    destruct Hroe as [Hroe|Hroe]; [discriminate|].
+    destruct (step_empty E st _ Hroe Hb Hw) as (st1 & Hst & A & B & Cc & D & G).
+    rewrite Hst. apply IH.
+    + right; assumption.
+    + assumption.
+    + lia.
+    + lia.
+    + rewrite B, Cc. exact Hs.
+    + rewrite A, B, Cc. reflexivity.
+Qed.
+
+(* ---------------- execute on top of a loop that ends with a reply *)
+Definition full_of (c : cfg) (st : cstate FS) (rq : req) : bool :=
+  if c_udp c then true else zmem (r_unit rq) (s_noresp st).
+Definition exp_of (c : cfg) (rq : req) : option Z :=
+  if c_udp c then (if opt_truthy (expected_length code c rq) then expected_length code c rq else Some (g_read_size code))
+  else expected_length code c rq.
+Definition env_of_call (c : cfg) (st : cstate FS) (rq : req) : lenv :=
+  {| e_cfg := c; e_req := rq; e_tid := next_tid code (s_tid st); e_exp := exp_of c rq |}.
+Definition start_of (c : cfg) (st : cstate FS) (rq : req) (w1 : world) : lst :=
+  {| l_w := w1; l_conn := true; l_retries := retries_eff code c + g_retries_bump code; l_full := full_of c st rq;
+     l_bcast := false; l_resp := []; l_noresp := s_noresp st; l_mbap := mbap0; l_sleeps := [] |}.
+
+Definition conformant_frame (reply : bytes) (u : Z) (m : msg) : Prop :=
+  forall fs, f_nonempty F fs = false -> exists fs', f_process F fs reply u = (fs', [m], None).
+Definition reset_empties : Prop := forall fs, f_nonempty F (f_reset F fs) = false.
+
+Lemma execute_of_loop c st rq script w1 l1 reply m :
+  s_tx st = [] -> c_bcast c && (r_unit rq =? 0) = false ->
+  t_connect {| w_script := script; w_calls := [] |} (s_conn st) = (w1, true) ->
+  loop code FS F (env_of_call c st rq) (S (Z.to_nat (retries_eff code c + g_retries_bump code))) (start_of c st rq w1)
+    = (l1, LDone) ->
+  l_resp l1 = reply -> reset_empties -> conformant_frame reply (r_unit rq) m ->
+  exists st' o, execute code FS F c st rq script = (st', o) /\ o_res o = RReply m /\ s_tx st' = [] /\
+                w_script (l_w l1) = skipn 0 (w_script (l_w l1)) /\ s_tid st' = next_tid code (s_tid st).
+Proof.
+  intros Htx Hb Hc Hl Hr Hreset Hframe.
+  unfold execute. rewrite Hc. cbn [negb]. rewrite Hb.
+  unfold env_of_call, start_of, exp_of, full_of in Hl.
+  assert (Hne : f_nonempty F (if f_nonempty F (s_fs st) then f_reset F (s_fs st) else s_fs st) = false)
+    by (destruct (f_nonempty F (s_fs st)) eqn:Hq; [apply Hreset|exact Hq]).
+  destruct (Hframe _ Hne) as (fs' & Hp).
+  destruct (c_udp c); rewrite Hl, Hr, Hp, Htx, add_all_nil; cbn [d_pop last]; rewrite Z.eqb_refl;
+    (do 2 eexists; split; [reflexivity|]; cbn; repeat split; reflexivity).
+Qed.
+
+(* after j empty replies (j <= retries, retry_on_empty set when j > 0) a healthy attempt is returned;
+   j = 0 is "a conformant reply is returned decoded" / "the client is ready" *)
+Theorem execute_empties_then_reply c st rq reply sc rest m (j : nat) :
+  s_tx st = [] -> c_bcast c && (r_unit rq =? 0) = false ->
+  0 <= retries_given c -> Z.of_nat j <= retries_given c -> (j = O \/ c_roe c = true) ->
+  reply <> [] ->
+  (c_roi c = true -> exists mb, decode_data 7 (c_framing c) reply = Ok mb /\ mb_unit mb = Some (r_unit rq)) ->
+  reset_empties -> conformant_frame reply (r_unit rq) m ->
+  serves (c_framing c) (exp_of c rq) (snd (after_empties j true (full_of c st rq))) reply sc ->
+  exists st' o,
+    execute code FS F c st rq
+      ((if s_conn st then [] else [Nothing]) ++ empties j true (full_of c st rq)
+         ++ attempt (fst (after_empties j true (full_of c st rq))) sc ++ rest) = (st', o)
+    /\ o_res o = RReply m /\ s_tx st' = [] /\ s_tid st' = next_tid code (s_tid st).
+Proof.
+  intros Htx Hb Hr0 Hj Hroe Hne Hu Hreset Hframe Hs.
+  set (script := (if s_conn st then [] else [Nothing]) ++ _).
+  destruct (connect_script {| w_script := script; w_calls := [] |} (s_conn st) _ eq_refl) as (w1 & Hc & H1).
+  pose proof (retries_eff_given c Hr0) as He.
+  destruct (loop_empties_then_healthy (env_of_call c st rq) reply sc rest Hne Hu j
+              (S (Z.to_nat (retries_eff code c + g_retries_bump code))) (start_of c st rq w1)) as (l1 & Hl & Hresp & _).
+  - exact Hroe.
+  - reflexivity.
+  - cbn [start_of l_retries g_retries_bump code]. lia.
+  - cbn [g_retries_bump code]. lia.
+  - exact Hs.
+  - exact H1.
+  - destruct (execute_of_loop c st rq script w1 l1 reply m Htx Hb Hc Hl Hresp Hreset Hframe) as (st' & o & A & B & Cc & _ & D).
+    exists st', o. repeat split; assumption.
+Qed.
+
+(* ---------------- retry_on_invalid: foreign replies (another unit answers) *)
+Definition foreign (E : lenv) (g : bytes) : Prop :=
+  g <> [] /\ exists mb, decode_data 7 (c_framing (e_cfg E)) g = Ok mb /\ unit_match E mb = false /\ len_match E mb = false.
+
+Lemma step_foreign E st g sc rest :
+  c_roi (e_cfg E) = true -> l_bcast st = false -> foreign E g ->
+  serves (c_framing (e_cfg E)) (e_exp E) (l_full st) g sc ->
+  w_script (l_w st) = attempt (l_conn st) sc ++ rest ->
+  exists st', step E st = (st', FNext) /\ w_script (l_w st') = rest /\ l_conn st' = true /\
+              l_full st' = false /\ l_bcast st' = false /\ l_retries st' = l_retries st - 1.
+Proof.
+  intros Hroi Hb (Hne & mb & Hd & Hum & Hlm) Hs Hw. unfold step. rewrite Hb.
+  destruct (transact_healthy _ (l_conn st) (e_req E) (e_tid E) _ _ _ _ _ _ Hs Hw) as (w' & Ht & Hsc).
+  rewrite Ht.
+  pose proof (nr_update_same E (set_resp st w' true g)) as (A & B & Cc & D & _).
+  cbn [set_resp l_w l_retries l_conn l_resp] in A, B, Cc, D.
+  destruct g as [|b0 g0]; [congruence|]. rewrite Hroi.
+  unfold retry_tail. rewrite D, Hd, Hum, Hlm.
+  eexists. split; [reflexivity|].
+  cbn [l_w l_conn l_full l_bcast l_retries set_retries set_bcast set_full set_sleep set_mbap].
+  rewrite A, B. repeat split; try reflexivity; assumption.
+Qed.
+
+Fixpoint foreign_script (l : list (bytes * list tev)) (conn : bool) : list tev :=
+  match l with [] => [] | (g, sc) :: t => attempt conn sc ++ foreign_script t true end.
+Fixpoint foreign_ok (E : lenv) (full : bool) (l : list (bytes * list tev)) : Prop :=
+  match l with
+  | [] => True
+  | (g, sc) :: t => foreign E g /\ serves (c_framing (e_cfg E)) (e_exp E) full g sc /\ foreign_ok E false t
+  end.
+Definition after_foreign (l : list (bytes * list tev)) (conn full : bool) : bool * bool :=
+  match l with [] => (conn, full) | _ => (true, false) end.
+
+Lemma loop_foreign_then_healthy E reply sc rest :
+  reply <> [] ->
+  (c_roi (e_cfg E) = true ->
+     exists m, decode_data 7 (c_framing (e_cfg E)) reply = Ok m /\ mb_unit m = Some (r_unit (e_req E))) ->
+  forall l fuel st,
+    (l = [] \/ c_roi (e_cfg E) = true) ->
+    l_bcast st = false -> zlen l < l_retries st -> (length l < fuel)%nat ->
+    foreign_ok E (l_full st) l ->
+    serves (c_framing (e_cfg E)) (e_exp E) (snd (after_foreign l (l_conn st) (l_full st))) reply sc ->
+    w_script (l_w st) = foreign_script l (l_conn st)
+                        ++ attempt (fst (after_foreign l (l_conn st) (l_full st))) sc ++ rest ->
+    exists st', loop code FS F E fuel st = (st', LDone) /\ l_resp st' = reply /\ w_script (l_w st') = rest.
+Proof.
+  intros Hne Hu. induction l as [|[g scg] t IH]; intros fuel st Hroi Hb Hr Hf Hok Hs Hw.
+  - destruct fuel as [|k]; [cbn in Hf; lia|]. cbn [loop]. rewrite guard_gt. unfold zlen in Hr. cbn [length] in Hr.
+    replace (l_retries st >? 0) with true by (symmetry; apply Z.gtb_lt; lia).
+    rewrite body_is_step. cbn [foreign_script after_foreign fst snd app] in *.
+    destruct (step_healthy E st reply sc rest Hb Hne Hs Hu Hw) as (st' & Hst & A & B & _).
+    rewrite Hst. exists st'. repeat split; assumption.
+  - destruct fuel as [|k]; [cbn in Hf; lia|]. cbn [loop]. rewrite guard_gt.
+    unfold zlen in Hr. cbn [length] in Hr, Hf.
+    replace (l_retries st >? 0) with true by (symmetry; apply Z.gtb_lt; lia).
+    rewrite body_is_step. cbn [foreign_script foreign_ok after_foreign fst snd] in *.
+    destruct Hroi as [Hroi|Hroi]; [discriminate|]. destruct Hok as (Hfg & Hsg & Hokt).
+    rewrite <- app_assoc in Hw.
+    destruct (step_foreign E st g scg _ Hroi Hb Hfg Hsg Hw) as (st1 & Hst & A & B & Cc & D & G).
+    rewrite Hst. apply IH.
+    + right; assumption.
+    + assumption.
+    + unfold zlen. lia.
+    + lia.
+    + rewrite Cc. exact Hokt.
+    + rewrite B, Cc. destruct t; exact Hs.
+    + rewrite A, B, Cc. destruct t; reflexivity.
+Qed.
+
+Theorem execute_foreign_then_reply c st rq reply sc rest m (l : list (bytes * list tev)) :
+  s_tx st = [] -> c_bcast c && (r_unit rq =? 0) = false ->
+  0 <= retries_given c -> zlen l <= retries_given c -> (l = [] \/ c_roi c = true) ->
+  reply <> [] ->
+  (c_roi c = true -> exists mb, decode_data 7 (c_framing c) reply = Ok mb /\ mb_unit mb = Some (r_unit rq)) ->
+  reset_empties -> conformant_frame reply (r_unit rq) m ->
+  foreign_ok (env_of_call c st rq) (full_of c st rq) l ->
+  serves (c_framing c) (exp_of c rq) (snd (after_foreign l true (full_of c st rq))) reply sc ->
+  exists st' o,
+    execute code FS F c st rq
+      ((if s_conn st then [] else [Nothing]) ++ foreign_script l true
+         ++ attempt (fst (after_foreign l true (full_of c st rq))) sc ++ rest) = (st', o)
+    /\ o_res o = RReply m /\ s_tx st' = [] /\ s_tid st' = next_tid code (s_tid st).
+Proof.
+  intros Htx Hb Hr0 Hj Hroi Hne Hu Hreset Hframe Hok Hs.
+  set (script := (if s_conn st then [] else [Nothing]) ++ _).
+  destruct (connect_script {| w_script := script; w_calls := [] |} (s_conn st) _ eq_refl) as (w1 & Hc & H1).
+  pose proof (retries_eff_given c Hr0) as He.
+  destruct (loop_foreign_then_healthy (env_of_call c st rq) reply sc rest Hne Hu l
+              (S (Z.to_nat (retries_eff code c + g_retries_bump code))) (start_of c st rq w1)) as (l1 & Hl & Hresp & _).
+  - exact Hroi.
+  - reflexivity.
+  - cbn [start_of l_retries g_retries_bump code]. lia.
+  - cbn [g_retries_bump code]. unfold zlen in Hj. lia.
+  - exact Hok.
+  - exact Hs.
+  - exact H1.
+  - destruct (execute_of_loop c st rq script w1 l1 reply m Htx Hb Hc Hl Hresp Hreset Hframe) as (st' & o & A & B & Cc & _ & D).
+    exists st', o. repeat split; assumption.
+Qed.
+End S.
+
+Section Deadline.
+Variable delta : Z.
+Hypothesis delta_pos : 0 < delta.
+
+(* deadline_progress: every iteration of the loop receives at least one byte or sees the clock advance by >= delta *)
+Definition progress (k : tick) : Prop := 0 <= k_dt k /\ (k_bytes k <> [] \/ delta <= k_dt k).
+
+Lemma firstn_len_pos (n : Z) (l : bytes) : 0 < n -> l <> [] -> 1 <= zlen (firstn (Z.to_nat n) l) <= n.
+Proof.
+  intros Hn Hl. unfold zlen. rewrite firstn_length. destruct l as [|a l]; [congruence|]. cbn [length]. lia.
+Qed.
+
+Lemma firstn_len_le (n : Z) (l : bytes) : 0 <= zlen (firstn (Z.to_nat n) l) <= Z.max 0 n.
+Proof. unfold zlen. rewrite firstn_length. lia. Qed.
+
+Lemma tcp_recv_loop_terminates s : 0 < s ->
+  forall ticks now end_ got b,
+    Forall progress ticks -> 0 <= b -> end_ - now < b * delta ->
+    0 <= s - zlen got -> (s - zlen got) + b <= zlen ticks ->
+    exists bs, tcp_recv_loop (Some s) (s - zlen got) now end_ got ticks = Some bs /\ zlen bs <= s.
+Proof.
+  intros Hs. induction ticks as [|k t IH]; intros now end_ got b Hp Hb He Hg Hl.
+  - unfold zlen in Hl. cbn [length] in Hl. assert (s - zlen got = 0) by (unfold zlen in *; lia).
+    cbn [tcp_recv_loop]. replace (s - zlen got >? 0) with false by lia. exists got. split; [reflexivity|lia].
+  - cbn [tcp_recv_loop]. destruct (s - zlen got >? 0) eqn:Hr; [|exists got; split; [reflexivity|lia]].
+    replace (s =? 0) with false by lia.
+    inversion Hp as [|k' t' Hk Ht]; subst. destruct Hk as (Hdt & Hk).
+    set (data := firstn (Z.to_nat (s - zlen got)) (k_bytes k)).
+    assert (Hr' : 0 < s - zlen got) by (apply Z.gtb_lt; exact Hr).
+    assert (Hd : 0 <= zlen data <= s - zlen got).
+    { pose proof (firstn_len_le (s - zlen got) (k_bytes k)) as Hx. fold data in Hx. lia. }
+    assert (Hgl : zlen (got ++ data) = zlen got + zlen data) by (unfold zlen; rewrite app_length; lia).
+    destruct (now + k_dt k >? end_) eqn:Hend.
+    + exists (got ++ data). split; [reflexivity|lia].
+    + unfold zlen in Hl. cbn [length] in Hl.
+      destruct Hk as [Hbytes|Hclock].
+      * assert (1 <= zlen data) by (pose proof (firstn_len_pos (s - zlen got) (k_bytes k) Hr' Hbytes) as Hy; fold data in Hy; lia).
+        apply (IH (now + k_dt k) end_ (got ++ data) b); try assumption; try lia. unfold zlen in *. lia.
+      * destruct (Z.eq_dec b 0) as [->|Hb0]; [lia|].
+        apply (IH (now + k_dt k) end_ (got ++ data) (b - 1)); try assumption; try lia. unfold zlen in *. lia.
+Qed.
+
+Theorem tcp_recv_terminates s now timeout ticks b :
+  0 < s -> Forall progress ticks -> 0 <= b -> timeout < b * delta -> s + b <= zlen ticks ->
+  exists bs, tcp_recv (Some s) now timeout ticks = Some bs /\ zlen bs <= s.
+Proof.
+  intros Hs Hp Hb Ht Hl. unfold tcp_recv.
+  pose proof (tcp_recv_loop_terminates s Hs ticks now (now + timeout) [] b Hp Hb) as H.
+  change (zlen (@nil N)) with 0 in H. rewrite Z.sub_0_r in H. apply H; lia.
+Qed.
+End Deadline.
+
+(* ------------------------------------------------------------------ witnesses
+   The framer tables below are the transitions RECORDED from the real framers by the harness
+   (props/lib_client.py) for these very inputs; the same inputs are replayed against the real client on
+   every run (findings/C08.json, findings/C13.json: replay_finding). *)
+
+Definition st0 (tid : Z) : cstate Z := Build_cstate tid [] 0 [] false.
+Definition rq_rh : req := {| r_unit := 5; r_fc := 3; r_psize := Some 8; r_id := 11005 |}.
+
+(* TCP: a well-formed frame carrying transaction id 78 answers request 1 *)
+Definition tab_tid : ftable := {| ft_nonempty := [(0, false)]; ft_reset := [];
+   ft_process := [(0, [0;78;0;0;0;9;5;3;6;1;2;1;3;1;4]%N, 5, (0, [{| m_tid := 78; m_uid := 5; m_fc := 3; m_id := 1 |}], None))];
+   ft_build := [(11005, 1, [0;1;0;0;0;6;5;3;0;2;0;3]%N)] |}.
+Definition cfg_tcp0 : cfg := {| c_framing := FTcp; c_udp := false; c_retries_kw := Some 0; c_roe := false; c_roi := false; c_bcast := false |}.
+Definition sc_tid : list tev := [Nothing; Nothing; Data [0;78;0;0;0;9;5;3]%N; Data [6;1;2;1;3;1;4]%N].
+
+Lemma pairing_tid_refuted :
+  exists (T : ftable) c st rq sc m,
+    s_tx st = [] /\ c_framing c = FTcp /\
+    o_res (snd (execute code Z (table_framer T) c st rq sc)) = RReply m /\
+    m_tid m <> next_tid code (s_tid st).
+Proof.
+  exists tab_tid, cfg_tcp0, (st0 0), rq_rh, sc_tid, {| m_tid := 78; m_uid := 5; m_fc := 3; m_id := 1 |}.
+  vm_compute. repeat split; discriminate.
+Qed.
+
+(* RTU: a ReadCoilsResponse (function 1) from the right unit answers a register read (function 3) *)
+Definition tab_fc : ftable := {| ft_nonempty := [(0, false)]; ft_reset := [];
+   ft_process := [(0, [5;1;1;5;144;187]%N, 5, (1, [{| m_tid := 5; m_uid := 5; m_fc := 1; m_id := 1 |}], None))];
+   ft_build := [(11005, 1, [5;3;0;2;0;3;165;143]%N)] |}.
+Definition cfg_rtu0 : cfg := {| c_framing := FRtu; c_udp := false; c_retries_kw := Some 0; c_roe := false; c_roi := false; c_bcast := false |}.
+Definition sc_fc : list tev := [Nothing; Nothing; Data [5;1]%N; Data [1;5;144;187]%N].
+
+Lemma pairing_fc_refuted :
+  exists (T : ftable) c st rq sc m,
+    s_tx st = [] /\
+    o_res (snd (execute code Z (table_framer T) c st rq sc)) = RReply m /\
+    m_uid m = r_unit rq /\ m_fc m <> r_fc rq /\ m_fc m <> Z.lor (r_fc rq) 128.
+Proof.
+  exists tab_fc, cfg_rtu0, (st0 0), rq_rh, sc_fc, {| m_tid := 5; m_uid := 5; m_fc := 1; m_id := 1 |}.
+  vm_compute. repeat split; discriminate.
+Qed.
+
+(* ASCII: non-hex bytes in the function-code field: ValueError escapes *)
+Definition tab_ascii : ftable := {| ft_nonempty := [(0, false)]; ft_reset := []; ft_process := [];
+   ft_build := [(11005, 1, [58;48;53;48;51;48;48;48;50;48;48;48;51;70;51;13;10]%N)] |}.
+Definition cfg_ascii0 : cfg := {| c_framing := FAscii; c_udp := false; c_retries_kw := Some 0; c_roe := false; c_roi := false; c_bcast := false |}.
+
+Lemma no_raise_refuted_ascii :
+  exists (T : ftable) c st rq sc,
+    s_tx st = [] /\ o_res (snd (execute code Z (table_framer T) c st rq sc)) = RRaise ValueError.
+Proof.
+  exists tab_ascii, cfg_ascii0, (st0 0), rq_rh, [Nothing; Nothing; Data [58;122;122;255;0]%N].
+  vm_compute. split; reflexivity.
+Qed.
+
+(* UDP: a good frame followed by one the decoder rejects, in one datagram: the first call returns the
+   ModbusIOException object but leaves the delivered message in the table; the next call, left without a
+   reply, returns None *)
+Definition tab_none : ftable := {| ft_nonempty := [(0, false); (1, true)]; ft_reset := [(1, 0)];
+   ft_process := [(0, [0;21;0;0;0;9;5;3;6;1;2;1;3;1;4;0;21;0;0;0;3;5;96;1]%N, 5,
+                   (1, [{| m_tid := 21; m_uid := 5; m_fc := 3; m_id := 1 |}], Some ModbusIOExc)); (0, [], 5, (0, [], None))];
+   ft_build := [(11005, 21, [0;21;0;0;0;6;5;3;0;2;0;3]%N); (11005, 22, [0;22;0;0;0;6;5;3;0;2;0;3]%N)] |}.
+Definition cfg_udp0 : cfg := {| c_framing := FTcp; c_udp := true; c_retries_kw := Some 0; c_roe := false; c_roi := false; c_bcast := false |}.
+
+Lemma none_refuted :
+  exists (T : ftable) c st rq sc1 sc2,
+    s_tx st = [] /\
+    let '(st1, o1) := execute code Z (table_framer T) c st rq sc1 in
+    o_res o1 = RErr None /\ s_tx st1 <> [] /\
+    o_res (snd (execute code Z (table_framer T) c st1 rq sc2)) = RNone.
+Proof.
+  exists tab_none, cfg_udp0, (st0 20), rq_rh,
+    [Nothing; Nothing; Data [0;21;0;0;0;9;5;3;6;1;2;1;3;1;4;0;21;0;0;0;3;5;96;1]%N], [Nothing; RaiseOSError].
+  vm_compute. repeat split; discriminate.
+Qed.
+
+(* ------------------------------------------------------------------ the hypotheses are satisfiable:
+   a small total framer that satisfies reset_empties / conformant_frame / proc_clean / framer_raises_io *)
+Definition demo_tcp : framer unit := {|
+  f_nonempty := fun _ => false;
+  f_reset := fun s => s;
+  f_build := fun rq tid => [Z.to_N (tid / 256); Z.to_N (tid mod 256); 0; 0; 0; 6; Z.to_N (r_unit rq); Z.to_N (r_fc rq); 0; 2; 0; 3]%N;
+  f_process := fun s d u =>
+    if (8 <=? zlen d) && ((u =? 0) || (u =? 255) || (nthb d 6 =? u))
+    then (s, [{| m_tid := nthb d 0 * 256 + nthb d 1; m_uid := nthb d 6; m_fc := nthb d 7; m_id := 0 |}], None)
+    else (s, [], None)
+|}.
+
+Definition reply_rh (tid : Z) : bytes := [Z.to_N (tid / 256); Z.to_N (tid mod 256); 0;0;0;9;5;3;6;1;2;1;3;1;4]%N.
+
+Lemma serves_demo exp : serves FTcp exp false (reply_rh 0) [Data (firstn 8 (reply_rh 0)); Data (skipn 8 (reply_rh 0))].
+Proof.
+  intros w rest Hw. change (reply_rh 0) with [0;0;0;0;0;9;5;3;6;1;2;1;3;1;4]%N in *.
+  cbn [app firstn skipn] in Hw.
+  unfold recv_model. cbn [g_min_size code].
+  destruct (pop_script w (CRecv (Some 8)) _ _ Hw) as (w1 & Hp & H1).
+  unfold t_recv at 1. rewrite Hp. cbn -[pop t_recv]. change (Pos.to_nat 8) with 8%nat. cbn -[pop t_recv].
+  destruct (pop_script w1 (CRecv (Some 7)) _ _ H1) as (w2 & Hp2 & H2).
+  unfold t_recv. rewrite Hp2. cbn. change (Pos.to_nat 7) with 7%nat. cbn. exists w2. split; [reflexivity|exact H2].
+Qed.
+
+Definition cfg_retry : cfg := {| c_framing := FTcp; c_udp := false; c_retries_kw := Some 2; c_roe := true; c_roi := true; c_bcast := false |}.
+
+(* tid wraps 65535 -> 0; two empty replies, then the healthy one, retries = 2 *)
+Lemma retry_example :
+  exists st' o,
+    execute code unit demo_tcp cfg_retry (Build_cstate 65535 [] tt [] false) rq_rh
+      ([Nothing] ++ empties 2 true false
+         ++ attempt false [Data (firstn 8 (reply_rh 0)); Data (skipn 8 (reply_rh 0))] ++ [])
+      = (st', o)
+    /\ o_res o = RReply {| m_tid := 0; m_uid := 5; m_fc := 3; m_id := 0 |} /\ s_tx st' = [] /\ s_tid st' = 0.
+Proof.
+  pose proof (execute_empties_then_reply unit demo_tcp cfg_retry (Build_cstate 65535 [] tt [] false) rq_rh
+                (reply_rh 0) [Data (firstn 8 (reply_rh 0)); Data (skipn 8 (reply_rh 0))] []
+                {| m_tid := 0; m_uid := 5; m_fc := 3; m_id := 0 |} 2%nat) as H.
+  destruct H as (st' & o & A & B & Cc & D).
+  - reflexivity.
+  - reflexivity.
+  - cbn; lia.
+  - cbn; lia.
+  - right; reflexivity.
+  - discriminate.
+  - intros _. exists {| mb_unit := Some 5; mb_len := Some 9 |}. split; reflexivity.
+  - intros fs. reflexivity.
+  - intros fs _. exists fs. reflexivity.
+  - apply serves_demo.
+  - exists st', o. repeat split; assumption.
+Qed.
+
+(* ------------------------------------------------------------------ corollaries in the shape Props/ states them *)
+Section Corollaries.
+Variable FS : Type.
+Variable F : framer FS.
+
+Lemma execute_inv c st rq sc st' o :
+  s_tx st = [] -> tid_ok (s_tid st) -> proc_clean FS F ->
+  execute code FS F c st rq sc = (st', o) ->
+  s_tx st' = [] /\ tid_ok (s_tid st') /\ (s_tid st' = s_tid st \/ s_tid st' = (s_tid st + 1) mod 65536).
+Proof.
+  intros Htx Ht Hpc H. pose proof (execute_cases FS F c st rq sc st' o Htx H) as (Hid & Hc).
+  assert (Htid : tid_ok (s_tid st') /\ (s_tid st' = s_tid st \/ s_tid st' = (s_tid st + 1) mod 65536)).
+  { unfold tid_ok in *. rewrite next_tid_mod in Hid by lia.
+    destruct Hid as [-> | ->]; (split; [|auto]); try lia.
+    apply Z.mod_pos_bound; lia. }
+  split; [|exact Htid].
+  destruct (o_res o) as [m|fc| | |e|].
+  - destruct Hc as (fs & resp & fs' & ms & _ & _ & _ & _ & X). exact X.
+  - destruct fc as [fc|].
+    + destruct Hc as [_ X]. exact X.
+    + destruct Hc as (fs & resp & fs' & ms & Hp & X). apply X. eapply Hpc. exact Hp.
+  - destruct Hc as (_ & _ & X). exact X.
+  - contradiction.
+  - destruct Hc as [(_ & _ & X)|[(_ & _ & X)|(fs & resp & fs' & ms & Hp & _ & X)]]; try exact X.
+    apply X. eapply Hpc. exact Hp.
+  - contradiction.
+Qed.
+
+Lemma execute_no_raise c st rq sc st' o :
+  s_tx st = [] -> c_framing c <> FAscii -> framer_raises_io FS F ->
+  execute code FS F c st rq sc = (st', o) ->
+  match o_res o with
+  | RReply _ | RErr _ | RBroadcast => True
+  | RRaise e => e = ConnectionExc /\ s_conn st' = false       (* the connection could not be established *)
+  | RNone | RStuck => False
+  end.
+Proof.
+  intros Htx Hfr Hio H. pose proof (execute_cases FS F c st rq sc st' o Htx H) as (_ & Hc).
+  destruct (o_res o) as [m|fc| | |e|]; try exact I; try contradiction.
+  destruct Hc as [(A & B & _)|[(A & _)|(fs & resp & fs' & ms & Hp & Hne & _)]].
+  - split; assumption.
+  - contradiction.
+  - exfalso. apply Hne. eapply Hio. exact Hp.
+Qed.
+
+Lemma execute_from_this_call c st rq sc st' o m :
+  s_tx st = [] -> execute code FS F c st rq sc = (st', o) -> o_res o = RReply m ->
+  exists fs resp fs' ms,
+    (fs = s_fs st \/ fs = f_reset F (s_fs st)) /\ (f_nonempty F (s_fs st) = true -> fs = f_reset F (s_fs st)) /\
+    f_process F fs resp (r_unit rq) = (fs', ms, None) /\ In m ms.
+Proof.
+  intros Htx H Hr. pose proof (execute_cases FS F c st rq sc st' o Htx H) as (_ & Hc). rewrite Hr in Hc.
+  destruct Hc as (fs & resp & fs' & ms & A & B & Cc & D & _). exists fs, resp, fs', ms. repeat split; assumption.
+Qed.
+
+(* the framers' unit filter (_validate_unit_id): what is delivered for unit u carries unit u, unless u is 0 or 255 *)
+Definition unit_filter : Prop :=
+  forall fs d u fs' ms ex m, f_process F fs d u = (fs', ms, ex) -> In m ms -> u <> 0 -> u <> 255 -> m_uid m = u.
+
+Lemma execute_pairing_unit c st rq sc st' o m :
+  s_tx st = [] -> unit_filter -> r_unit rq <> 0 -> r_unit rq <> 255 ->
+  execute code FS F c st rq sc = (st', o) -> o_res o = RReply m -> m_uid m = r_unit rq.
+Proof.
+  intros Htx Hf H0 H255 H Hr.
+  destruct (execute_from_this_call c st rq sc st' o m Htx H Hr) as (fs & resp & fs' & ms & _ & _ & Hp & Hin).
+  eapply Hf; eassumption.
+Qed.
+
+(* after ANY script (faults) the client is ready: a healthy transport returns the own reply *)
+Lemma execute_ready c st rq1 faults st1 o1 rq reply sc rest m :
+  s_tx st = [] -> tid_ok (s_tid st) -> proc_clean FS F ->
+  execute code FS F c st rq1 faults = (st1, o1) ->
+  c_bcast c && (r_unit rq =? 0) = false -> 0 <= retries_given c -> reply <> [] ->
+  (c_roi c = true -> exists mb, decode_data 7 (c_framing c) reply = Ok mb /\ mb_unit mb = Some (r_unit rq)) ->
+  reset_empties FS F -> conformant_frame FS F reply (r_unit rq) m ->
+  serves (c_framing c) (exp_of c rq) (full_of FS c st1 rq) reply sc ->
+  exists st2 o2,
+    execute code FS F c st1 rq ((if s_conn st1 then [] else [Nothing]) ++ attempt true sc ++ rest) = (st2, o2)
+    /\ o_res o2 = RReply m /\ s_tx st2 = [] /\ s_tid st2 = (s_tid st1 + 1) mod 65536.
+Proof.
+  intros Htx Ht Hpc H1 Hb Hr Hne Hu Hreset Hframe Hs.
+  destruct (execute_inv c st rq1 faults st1 o1 Htx Ht Hpc H1) as (Htx1 & Ht1 & _).
+  destruct (execute_empties_then_reply FS F c st1 rq reply sc rest m 0%nat Htx1 Hb Hr) as (st2 & o2 & A & B & Cc & D);
+    try assumption.
+  - left; reflexivity.
+  - exists st2, o2. repeat split; try assumption. rewrite D. apply next_tid_mod. unfold tid_ok in Ht1. lia.
+Qed.
+End Corollaries.
